@@ -166,6 +166,94 @@ def ob_base_new(tier="quick"):
                           "anno_universe": None})
 
 
+class _Table(dict):
+    """the hash-cons table in an arbitrary state satisfying its invariant: under a hash h it holds nothing, or a live node whose own hash is h
+    (decided per probe); every probe and every store is recorded"""
+    def __init__(self, c, ns):
+        super().__init__()
+        self.c, self.ns, self.probes, self.stores, self.pre = c, ns, [], [], []
+
+    def get(self, h, default=None):
+        self.probes.append(h)
+        if dict.__contains__(self, h):
+            return dict.__getitem__(self, h)
+        if self.c.choose([True, True], f"table-holds-a-node-under-probe{len(self.probes)}") == 0:
+            return default
+        n = object.__new__(self.ns["Base"])
+        n._hash = h
+        self.pre.append(n)
+        dict.__setitem__(self, h, n)
+        return n
+
+    def __setitem__(self, h, n):
+        self.stores.append((h, n))
+        dict.__setitem__(self, h, n)
+
+
+def ob_base_new_table(tier="quick"):
+    """C06: the hash-cons table discipline of the real Base.__new__.  The table is in an arbitrary state satisfying its invariant (a node is
+    stored under its own hash).  Post: the node returned for (op, args, annotations, length) carries the hash of the FINAL identity of the
+    node - the annotations after the arguments' relocatable annotations were merged in - whether it was found in the table or built; a node
+    that is built is stored under exactly that hash.  (Returning what the table holds under any other key merges two different
+    expressions.)"""
+    import itertools
+    proxies.set_iw(24)
+
+    def body(c):
+        ns = _c.get("ns") or _c.setdefault("ns", load_base())
+        Base = ns["Base"]
+        table = _Table(c, ns)
+        Base._hash_cache = table
+        nk = 1 + c.choose([True, True], "n-ast-args")
+        kids = [_stub(ns, c, f"k{i}", i, light=True) for i in range(nk)]
+        args = tuple(kids) + (3,)
+        op = "__add__"
+        uni = [_annos()[0], _annos()[1], _annos()[3]]
+        ka = c.choose([True] * (1 << len(uni)), "annotations-given")
+        given = tuple(a for i, a in enumerate(uni) if ka >> i & 1)
+        skip = c.choose([True, True], "skip_child_annotations") == 1
+        try:
+            r = Base(op, args, annotations=given, skip_child_annotations=skip, length=8)
+        except (PathEnd, Undecided):
+            raise
+        except Exception as ex:  # noqa
+            import traceback
+            c.fail("Base.__new__/raises", f"{type(ex).__name__}: {ex} {traceback.format_exc()[-300:]}", kind="raises")
+            return "raised"
+        finally:
+            Base._hash_cache = weakref.WeakValueDictionary()
+        c.n_vcs += 1
+        own_r = frozenset(a for a in given if not a.eliminatable and a.relocatable)
+        merged = set(given) if skip else set(given) | set().union(*[k._relocatable_annotations for k in kids])
+        # the merged annotation tuple is built by iterating a frozenset: any order of the same set is the same identity here
+        ok_hashes = {Base._calc_hash(op, args, perm if (not skip) else given, 8) for perm in (itertools.permutations(merged) if not skip else [given])}
+        was_there = any(r is n for n in table.pre)
+        if r._hash not in ok_hashes:
+            pre = was_there
+            c.fail("Base.__new__/returned-node-has-the-hash-of-the-final-identity",
+                   f"asked for {op}{tuple('k%d' % i for i in range(nk))} with annotations {given!r} (arguments carry {[tuple(k.annotations) for k in kids]}, skip_child_annotations={skip}): "
+                   + ("the node found in the table under ANOTHER key was returned" if pre else "the built node carries another hash"), kind="C06")
+            return "wrong-node"
+        if not was_there:
+            if not any(h == r._hash and n is r for h, n in table.stores):
+                c.fail("Base.__new__/built-node-is-stored-under-its-hash", "a node was built but not stored in the table under its own hash", kind="C06")
+        c.check("Base.__new__/table-discipline", True)
+        return "hit" if was_there else "built"
+
+    return explore(body, {"budget_s": 300, "max_depth": 4000, "max_paths": 500000, "anno_universe": None, "replay": replay_table})
+
+
+def replay_table(failure=None):
+    """native: the annotation-stripped twin of an operation over an annotated symbol is alive; building the operation again must not return it"""
+    import claripy
+    x = claripy.BVS("kf_tab_x", 8, explicit_name=True).annotate(claripy.annotation.UninitializedAnnotation())
+    twin = (-x).clear_annotations()
+    again = -x
+    bad = again is twin or tuple(again.annotations) != tuple((-x).annotations) or not again.annotations
+    return {"reproduced": bool(bad), "text": f"x = BVS.annotate(UninitializedAnnotation()); twin = (-x).clear_annotations(); -x now has annotations {again.annotations!r}"
+            + (" and IS the twin" if again is twin else "")}
+
+
 def ob_make_like(tier="quick"):
     """annotation edits through the real make_like (fast path and slow path): args = self.args"""
     proxies.set_iw(24)
